@@ -106,7 +106,72 @@ pub fn one(out: &mut Out, nr: usize, nc: usize, logical: &[Vec<usize>]) {
     out.count(if all_single { "renderings:single-line" } else { "renderings:multi-line" });
 }
 
+/// an element that counts how often it is rendered (and whose text would change with every call)
+struct Cnt { calls: std::cell::Cell<usize>, text: &'static str }
+impl std::fmt::Display for Cnt {
+    fn fmt(&self, f: &mut std::fmt::Formatter<'_>) -> std::fmt::Result { self.calls.set(self.calls.get() + 1); f.write_str(self.text) }
+}
+impl std::fmt::Debug for Cnt {
+    fn fmt(&self, f: &mut std::fmt::Formatter<'_>) -> std::fmt::Result { self.calls.set(self.calls.get() + 1); f.write_str(self.text) }
+}
+
+/// an element whose own rendering formats a matrix (what a block matrix does implicitly)
+struct Wrap(Matrix<P>);
+impl std::fmt::Display for Wrap {
+    fn fmt(&self, f: &mut std::fmt::Formatter<'_>) -> std::fmt::Result { f.write_str(&self.0.to_string()) }
+}
+impl std::fmt::Debug for Wrap {
+    fn fmt(&self, f: &mut std::fmt::Formatter<'_>) -> std::fmt::Result { f.write_str(&format!("{:?}", self.0)) }
+}
+
+/// every element is rendered exactly once per formatting call; elements whose rendering formats a
+/// matrix themselves (block matrices) never make formatting panic, and Display stays order-independent
+fn rendering_discipline(out: &mut Out) {
+    out.case("fmt rendering discipline: call counts, nested matrices");
+    out.nontrivial();
+    for (nr, nc) in [(1usize, 1usize), (2, 3), (3, 2), (1, 4), (4, 1), (3, 3), (0, 2)] {
+        for order in ORDERS {
+            for kind in ["display", "debug"] {
+                let op = format!("oracle fmt-call-counts {kind} {nr} {nc} {}", ord_ch(order));
+                out.announce(&op);
+                let texts = ["7", "x\ny", "", "long one", "é"];
+                let m: Matrix<Cnt> = mk_from(order, nr, nc, (0..nr * nc).map(|k| Cnt { calls: std::cell::Cell::new(0), text: texts[k % texts.len()] }).collect());
+                let res = catch(|| if kind == "display" { format!("{m}") } else { format!("{m:?}") });
+                if res.is_none() { out.oracle_fail(&format!("{op}: formatting panicked")); }
+                let counts: Vec<usize> = m.iter_elements().map(|e| e.calls.get()).collect();
+                if counts.iter().any(|&c| c != 1) {
+                    out.oracle_fail(&format!("{op}: the elements were rendered {:?} times (memory order), expected once each", counts));
+                }
+                out.observe("ok");
+            }
+        }
+    }
+    for (nr, nc) in [(1usize, 1usize), (2, 2), (1, 3), (2, 1)] {
+        for kind in ["display", "debug"] {
+            let op = format!("oracle fmt-nested {kind} {nr} {nc}");
+            out.announce(&op);
+            let inner = |k: usize, o: Order| -> Matrix<P> { mk_from(o, 2, 2, vec![P(1 + k % 3), P(12), P(3), P(2)]) };
+            let mut texts = Vec::new();
+            for order in ORDERS {
+                let blocks: Matrix<Matrix<P>> = mk_from(order, nr, nc, (0..nr * nc).map(|k| inner(k, order)).collect());
+                let wrapped: Matrix<Wrap> = mk_from(order, nr, nc, (0..nr * nc).map(|k| Wrap(inner(k, Order::RowMajor))).collect());
+                let r1 = catch(|| if kind == "display" { format!("{blocks}") } else { format!("{blocks:?}") });
+                let r2 = catch(|| if kind == "display" { format!("{wrapped}") } else { format!("{wrapped:?}") });
+                if r1.is_none() { out.oracle_fail(&format!("{op}: formatting a matrix of matrices panicked ({:?})", order)); }
+                if r2.is_none() { out.oracle_fail(&format!("{op}: formatting a matrix whose elements format a matrix panicked ({:?})", order)); }
+                texts.push(r2);
+            }
+            // same logical contents (row-major inner blocks, position-independent) in both orders
+            if kind == "display" && nr * nc == 1 && texts[0] != texts[1] {
+                out.oracle_fail(&format!("{op}: Display differs between storage orders"));
+            }
+            out.observe("ok");
+        }
+    }
+}
+
 pub fn run_c20(out: &mut Out, rng: &mut Rng, tier: Tier) -> String {
+    rendering_discipline(out);
     let bound = 4;
     let per_shape = if tier == Tier::Quick { 6 } else { 40 };
     for nr in 0..=bound {
@@ -143,7 +208,7 @@ pub fn run_c20(out: &mut Out, rng: &mut Rng, tier: Tier) -> String {
         out.nontrivial();
     }
     format!(
-        "every shape 0..={bound} x 0..={bound} x {per_shape} assignments of element renderings from a 22-entry palette (empty string, ASCII, multi-byte, blank, tab, bare CR, renderings with LF / CRLF / trailing and doubled line breaks): all-empty, all-equal, single-line mixes, arbitrary mixes; \
+        "every shape 0..={bound} x 0..={bound} x {per_shape} assignments of element renderings from a 24-entry palette (empty string, ASCII, multi-byte, blank, tab, bare CR, renderings with LF / CRLF (also between multi-byte characters) / trailing and doubled line breaks): all-empty, all-equal, single-line mixes, arbitrary mixes; \
          each logical matrix is built in both storage orders and formatted with Display and Debug (crate features full = parallel + pretty-debug, NO_COLOR set); plus 3x4, 10x11 and 1x101 for 2- and 3-digit index labels. \
          Oracle: never a panic; element-less => `[]` (both impls); Debug for single-line renderings: header line, one bracketed line per logical row with its number and every element labelled with its memory-order position, all row lines equally wide; for single-line renderings exactly one bracketed line per logical row with the row's elements in column order, padded to the common width, all lines equally wide in characters; Display text identical for both orders. A case = one logical matrix"
     )
